@@ -1,33 +1,80 @@
+// Debug helper of builder compA (not used by any check).
+//   c07dbg file <name> <path> <envdir>     compile one file, print everything
+//   c07dbg gen <n> <seed> <envdir>         type-check n generated Go programs in-process
+//   c07dbg ext <n> <seed> <envdir>         same for extended programs
 package main
 
 import (
 	"fmt"
 	"os"
+	"strconv"
 
 	"verifharness/compa"
+	"verifharness/vh"
 )
 
 func main() {
-	src, _ := os.ReadFile(os.Args[2])
-	fs := compa.Files{os.Args[1]: string(src)}
-	env, err := compa.NewEnv(os.Args[3])
-	if err != nil {
-		panic(err)
+	switch os.Args[1] {
+	case "gen", "ext":
+		n, _ := strconv.Atoi(os.Args[2])
+		seed, _ := strconv.Atoi(os.Args[3])
+		env, err := compa.NewEnv(os.Args[4])
+		if err != nil {
+			panic(err)
+		}
+		r := vh.NewRand(uint64(seed))
+		bad := 0
+		for i := 0; i < n; i++ {
+			rr := r.Fork(i)
+			var src string
+			if os.Args[1] == "gen" {
+				prog, _ := compa.GenGo(rr)
+				src = prog.Print(rr.Fork(7))
+			} else {
+				src, _ = compa.GenGoExt(rr, 2+rr.Intn(4))
+			}
+			if class, msg := env.GoCheck([]byte(src), nil); class != "" {
+				bad++
+				if bad <= 3 {
+					fmt.Printf("=== %d: %s %s\n%s\n", i, class, msg, src)
+				} else {
+					fmt.Printf("=== %d: %s %s\n", i, class, msg)
+				}
+				continue
+			}
+			// as XGo
+			out, err, esc, _ := env.BuildFile("main.xgo", src, false)
+			if err != nil || esc != "" {
+				fmt.Printf("=== %d: XGO %v %s\n", i, err, esc)
+				continue
+			}
+			if class, msg := env.GoCheck(out, nil); class != "" {
+				fmt.Printf("=== %d: XGO-OUT %s %s\n", i, class, msg)
+			}
+		}
+		fmt.Println("bad:", bad, "of", n)
+	case "file":
+		src, _ := os.ReadFile(os.Args[3])
+		fs := compa.Files{os.Args[2]: string(src)}
+		env, err := compa.NewEnv(os.Args[4])
+		if err != nil {
+			panic(err)
+		}
+		p := compa.Parse(fs)
+		fmt.Println("parse err:", p.Err, "panic:", p.Panic)
+		pkg := compa.MainPkg(p.Pkgs)
+		if pkg == nil {
+			return
+		}
+		c := env.Compile(p.Fset, pkg, false)
+		fmt.Printf("cl err: %v\npanic: %s\nwpanic: %s\n", c.Err, c.Panic, c.WPanic)
+		fmt.Println(string(c.Src))
+		if c.Err != nil {
+			fmt.Println(compa.PosIssue(c.Err, p.Fset, fs, func(s string) string { return s[len("/pkg/"):] }))
+		} else {
+			fmt.Println(env.GoCheck(c.Src, fs))
+		}
+		out, err, esc, _ := env.BuildDir(fs, false)
+		fmt.Printf("BuildDir: out=%d bytes err=%v esc=%s\n", len(out), err, esc)
 	}
-	p := compa.Parse(fs)
-	fmt.Println("parse err:", p.Err, "panic:", p.Panic)
-	pkg := compa.MainPkg(p.Pkgs)
-	if pkg == nil {
-		return
-	}
-	c := env.Compile(p.Fset, pkg, false)
-	fmt.Printf("cl err: %v\npanic: %s\nwpanic: %s\n", c.Err, c.Panic, c.WPanic)
-	fmt.Println(string(c.Src))
-	if c.Err != nil {
-		fmt.Println(compa.PosIssue(c.Err, p.Fset, fs, func(s string) string { return s[len("/pkg/"):] }))
-	} else {
-		fmt.Println(env.GoCheck(c.Src, fs))
-	}
-	out, err, esc, _ := env.BuildDir(fs, false)
-	fmt.Printf("BuildDir: out=%d bytes err=%v esc=%s\n", len(out), err, esc)
 }
